@@ -174,6 +174,28 @@ var heldRun struct {
 // compareRun is the reference-model oracle: parse + run src on both sides and compare
 // everything the properties make observable.
 func compareRun(src string) (*fw.Fail, cmpInfo) {
+	heldRun.want, heldRun.err = "", nil
+	f, info := compareRun0(src)
+	if f != nil || heldRun.want == "" {
+		return f, info
+	}
+	// what the call returned belongs to the caller for good: a LATER, unrelated call (here: a small program with blocks, a
+	// binding and, every other time, a run-time error) must not change the blocks, the binding or the error text
+	probe := "def later_call \"p\" { q = 1; def kid { } }\ndef later_call { }\nbind later_call:first -> struct\n"
+	if len(src)%2 == 1 {
+		probe += "print 1 / 0\n"
+	}
+	impl.Interpret(probe)
+	if got := impl.BlocksStr(heldRun.blocks) + " " + impl.BindingStr(heldRun.binding); got != heldRun.want {
+		return fw.Failf("the blocks and binding a call returned are not changed by a later call", "after a later Interpret of another program they read %s", fw.Trunc(got, 300)), cmpInfo{"earlier-result-changed"}
+	}
+	if heldRun.err != nil && heldRun.err.Error() != heldRun.errText {
+		return fw.Failf("the error a call returned keeps its text: "+fw.Trunc(heldRun.errText, 200), "after a later Interpret of another program it reads %q", fw.Trunc(heldRun.err.Error(), 200)), cmpInfo{"earlier-result-changed"}
+	}
+	return f, info
+}
+
+func compareRun0(src string) (*fw.Fail, cmpInfo) {
 	prog, diag := ref.Parse(src)
 	var res *ref.Result
 	if diag == nil {
@@ -184,19 +206,6 @@ func compareRun(src string) (*fw.Fail, cmpInfo) {
 		}
 	}
 	r := impl.Interpret(src)
-	// what the PREVIOUS call returned still belongs to the caller: this call must not have touched it (a result slice
-	// or map the library recycles shows up here: the held text was rendered after the caller's own writes)
-	if heldRun.err != nil && heldRun.err.Error() != heldRun.errText {
-		got := heldRun.err.Error()
-		heldRun.err = nil
-		return fw.Failf("the error value returned by the previous call keeps its text: "+fw.Trunc(heldRun.errText, 200), "after this call it reads %q", fw.Trunc(got, 200)), cmpInfo{"earlier-result-changed"}
-	}
-	if heldRun.want != "" {
-		if got := impl.BlocksStr(heldRun.blocks) + " " + impl.BindingStr(heldRun.binding); got != heldRun.want {
-			heldRun.want = ""
-			return fw.Failf("the blocks and binding returned by the previous call are not changed by a later call", "they changed while this call ran; they now read %s", fw.Trunc(got, 300)), cmpInfo{"earlier-result-changed"}
-		}
-	}
 	// what a call returned belongs to the caller: once it has been compared, every map in it is written to, so
 	// that a map the library still shares (with another block, with a later call) shows up as a foreign key there
 	defer func() {
